@@ -22,6 +22,10 @@ func ValueOf(query *Query, current Map, any any) (any, error) {
 	switch value := any.(type) {
 	case ColumnName:
 		{
+			// a column of the row first, whatever its name is made of (`my col`, `é`); a path otherwise
+			if column, ok := current[string(value)]; ok {
+				return column, nil
+			}
 			rs, err := ExecReader(current, string(value))
 			if err != nil {
 				// if errors.Is(err, KEY_NOT_FOUND) {
